@@ -175,6 +175,9 @@ class Evaluator:
         for c in cases:
             lg = self.logs[c['logkey']]
             rs = outs[c['id']].get('range_state')
+            # the SPEC takes the range as requested (normalised as TimeRange documents, C13); the MODEL takes the state of
+            # the TimeRange object the implementation built
+            rq = K.normalise_range(c['range'])
             tail = ' '.join([K.file_tokens(lg['msgs'], len(lg['data'])), K.cfg_tokens(c['max_bytes'], c['flags']),
                              K.zl(c['srcs']), K.zl(c['types']), K.range_tokens(rs)])
             if c.get('late_srcs') is not None:
@@ -182,12 +185,13 @@ class Evaluator:
                 ll.append('ML L ' + tail + ' ' + K.zl(c['late_srcs']))
                 # SPEC: the late source filter is just a source filter
                 tail_s = ' '.join([K.file_tokens(lg['msgs'], len(lg['data'])), K.cfg_tokens(c['max_bytes'], c['flags']),
-                                   K.zl(c['late_srcs']), K.zl(c['types']), K.range_tokens(rs)])
+                                   K.zl(c['late_srcs']), K.zl(c['types']), K.range_tokens(rq)])
                 sl.append('S F ' + tail_s)
             else:
                 ml.append('M F ' + tail)
                 ll.append('M L ' + tail)
-                sl.append('S F ' + tail)
+                sl.append('S F ' + ' '.join([K.file_tokens(lg['msgs'], len(lg['data'])), K.cfg_tokens(c['max_bytes'], c['flags']),
+                                             K.zl(c['srcs']), K.zl(c['types']), K.range_tokens(rq)]))
         return ml, sl, ll
 
     def run(self, cases, tag, with_legacy=False):
@@ -287,6 +291,15 @@ def judge(c, rec):
                 % (offs, spec_offs, extra, missing, '' if outcome not in ('pieces', 'count') else '; yielded pieces differ: %s vs %s' % (json.dumps(impl['res'])[:300], json.dumps(spec_res)[:300])))
     if sig is not None:
         out.append(('violation', sig, text))
+    # a caller that keeps the results (list(reader)) must see what the loop body saw, and no two results may share a
+    # mutable piece
+    if 'res' in impl and (impl.get('res_after', impl['res']) != impl['res'] or impl.get('alias')):
+        k = next((i for i, (a, b) in enumerate(zip(impl['res'], impl.get('res_after', impl['res']))) if a != b), None)
+        out.append(('violation', {'outcome': 'retained-results-differ', 'class': 'pieces-aliased-across-results', 'features': features(c),
+                                  'pieces': ''.join(impl.get('alias') or [])},
+                    'results kept after the iteration (list(reader)) are not what was yielded: pieces sharing one object across results: %s; %s'
+                    % (impl.get('alias'), 'no value difference' if k is None else 'result %d was %s when yielded and is %s after the iteration'
+                       % (k, json.dumps(impl['res'][k])[:200], json.dumps(impl['res_after'][k])[:200]))))
     # text-level oracle on the time bounds (independent of the Coq SPEC)
     if 'res' in impl and isinstance(impl.get('shadow'), list) and c.get('range') is not None:
         out += time_oracle(c, rec)
@@ -307,7 +320,7 @@ def time_oracle(c, rec):
     caller's t0) for relative ranges."""
     out = []
     msgs = rec['log']['msgs']
-    rs = rec['impl'].get('range_state')
+    rs = K.normalise_range(c.get('range'))
     if rs is None or (rs['start'] is None and rs['end'] is None):
         return out
     timed = [m for m in msgs if m['t8'] is not None]
@@ -488,7 +501,7 @@ def run(ctx):
                             'of <= 4 present types (+ an absent type) x sampled ranges (absolute / relative / Timestamp arguments / preset t0, open and closed, '
                             'whole and fractional, before / inside / after the log), all subsets of present source ids (+ an absent one) through the constructor '
                             'and through filter_in_place, max_bytes at every message start / header end / message end +-1. A case is distinct by (log, options); '
-                            'non-trivial when the log is not empty. Every case is run a second time with all return_* options on to identify the messages returned.') % len(K.fixed_logs())
+                            'non-trivial when the log is not empty. Every case is run a second time with all return_* options on to identify the messages returned; yielded pieces are compared both inside the loop and after collecting all results (list(reader)), and header / payload objects must be distinct between results.') % len(K.fixed_logs())
     ctx.coverage['exhaustive'] = False
     ctx.trusted_base += ['Coq 8.16.1 kernel + vm_compute', 'extraction (ExtrOcamlBasic only), ocaml/conv.ml + c10_driver.ml',
                          'hand transcription of MixedLogReader.__init__/_read_next/filter_in_place/_populate_available_source_ids and FileIndex.__getitem__/get_time_range '
